@@ -120,6 +120,16 @@ func applyStructOp(g geom.Geometry, act string, arg T) geom.Geometry {
 		panic("mkmulti on " + g.Type().String())
 	case "viactor":
 		return viaCtor(g)
+	case "geojson":
+		b, err := g.MarshalJSON()
+		if err != nil {
+			panic(err)
+		}
+		r, err := geom.UnmarshalGeoJSON(b, geom.NoValidate{})
+		if err != nil {
+			panic(err)
+		}
+		return r
 	case "mkpoly":
 		return geom.NewPolygon([]geom.LineString{g.MustAsLineString(), buildTree(arg).MustAsLineString()}).AsGeometry()
 	case "snap0":
@@ -304,7 +314,7 @@ func structExec(c Case) Event {
 	return Event{"start": start, "steps": steps, "nt": !g.IsEmpty(), "nevents": len(steps)}
 }
 
-var structActs = []string{"force", "force", "force2d", "reverse", "swapxy", "asmulti", "mkgc", "mkgc1", "mkmulti", "mkpoly", "viactor", "snap0", "densify", "wkb", "wkt", "forcecw", "forceccw"}
+var structActs = []string{"force", "force", "force2d", "reverse", "swapxy", "asmulti", "mkgc", "mkgc1", "mkmulti", "mkpoly", "viactor", "geojson", "snap0", "densify", "wkb", "wkt", "forcecw", "forceccw"}
 
 func structGen(r *rand.Rand, n int, tier string, emit func(Case)) {
 	for i := 0; i < n; i++ {
